@@ -186,7 +186,8 @@ fn judge_const_width<H: Hist>(start: f64, end: f64) -> Vec<Violation> {
         out.push(Violation { sig: "hist.with_const_width:bins-not-zero".into(), detail: desc() });
     }
     let scale = start.abs().max(end.abs());
-    let ulp = scale * f64::EPSILON; // one ulp of the larger magnitude (upper bound)
+    // one ulp of the larger magnitude (upper bound); never below the subnormal spacing
+    let ulp = (scale * f64::EPSILON).max(5e-324);
     let tol = 8.0 * ulp;
     let (s, e) = (Rat::from_f64(start), Rat::from_f64(end));
     for (i, ri) in r.iter().enumerate() {
@@ -232,6 +233,18 @@ impl<H: Hist> Check for ConstWidth<H> {
             for b in &l[i + 1..] {
                 if a < b {
                     pairs.push((*a, *b));
+                }
+            }
+        }
+        // bins narrower than an ulp: end a few floating-point neighbours above start
+        for a in [1.0, 0.3, -0.7, 1e15 + 3., 5e-324, 1e-300, -1e9, 4.0, 0.0, -0.0] {
+            for k in [1u32, 2, 3, 5, 8, H::LEN as u32 - 1, H::LEN as u32, H::LEN as u32 + 1, 2 * H::LEN as u32 + 1, 100] {
+                let mut b = a;
+                for _ in 0..k.max(1) {
+                    b = crate::refmodels::hist::next_up(b);
+                }
+                if a < b {
+                    pairs.push((a, b));
                 }
             }
         }
